@@ -277,6 +277,13 @@ func (m MapSchema[K, V]) Serialize(data any) (any, error) {
 		if err != nil {
 			return nil, ConstraintErrorAddPathSegment(err, fmt.Sprintf("[%v]", k))
 		}
+		if _, duplicate := result[serializedKey]; duplicate {
+			// As in Unserialize: two keys, such as int(1) and int64(1) in a map[any]any, that stand for the same
+			// key would leave one entry, chosen by the iteration order.
+			return nil, ConstraintErrorAddPathSegment(&ConstraintError{
+				Message: fmt.Sprintf("Duplicate key: more than one key stands for %v", serializedKey),
+			}, fmt.Sprintf("{%v}", k))
+		}
 		result[serializedKey] = serializedValue
 	}
 	return result, nil
